@@ -297,6 +297,8 @@ void check_pair(Ctx& c, const Universe& u, size_t i, size_t j, const Value& a, c
     OK(k, n1 == !e1, "neq-not-negation", "a != b is not the negation of a == b");
     OK(k, !(l1 && l2), "lt-asymmetric", "a < b and b < a both hold; b=" + refv::str(b));
     OK(k, eq ? (!l1 && !l2) : (l1 || l2), "lt-total-consistent", (eq ? "a < b holds for equal values" : "neither a < b nor b < a for different values of one type; b=") + refv::str(b));
+    // the order is an order on VALUES (consistent with ==): the same pair of values compares the same way in every representation
+    OK(k, l1 == (ra.r[0].second < rb.r[0].second), std::string("lt-depends-on-representation-") + reps, "a < b differs between representations (" + std::string(reps) + " vs enumerated) b=" + refv::str(b), bstr(l1), bstr(!l1));
     const auto cab = A.Compare(B);
     OK(k, (cab == Comparison::EQUAL) == e1 && (cab == Comparison::LESS) == l1 && (cab == Comparison::GREATER) == l2, "compare-consistent", "Compare disagrees with == / <; b=" + refv::str(b), cmpstr(cab));
     if (!a.isSet()) continue;
